@@ -209,7 +209,13 @@ def _run_reader(stream, log, on_err, validate, parsed, quit, handler, labelmsm, 
         kw["labelmsm"] = labelmsm
     if handler or not omit:
         kw["errorhandler"] = _handler_object(on_err) if handler else None
-    rdr = RTCMReader(proxy, **kw)
+    # calling style: every third construction passes validate, quitonerror, labelmsm POSITIONALLY in
+    # the documented order RTCMReader(datastream, validate, quitonerror, labelmsm, bufsize, parsed, ...)
+    if _rc[0] % 3 == 1:
+        rest = {k: v for k, v in kw.items() if k in ("errorhandler",)}
+        rdr = RTCMReader(proxy, validate, quit, labelmsm, 4096, parsed, **rest)
+    else:
+        rdr = RTCMReader(proxy, **kw)
     if not wrap:
         raise MachineryFailure("run_reader needs a stream it can wrap (no private attributes of the reader are touched)")
     events = []
